@@ -533,6 +533,89 @@ Example C11_ex_grid_premises :
   vsum (NA := NumF64) (DT := IsNoneF64) [1.25; nan; -0.75; 100]%float = Some 100.5%float.
 Proof. split; vm_compute; reflexivity. Qed.
 
+(* ================= binary64, continued: the one-pass MEAN up to floating-point rounding (Proofs/RoundMean.v) ===== *)
+(* `vmean` accumulates the sum in f64 and divides once by `n as f64`.  `n as f64` is exact for n < 2^53; the division is
+   one more correctly rounded operation, and binary64 division CAN underflow, so its error model carries an absolute
+   term:  |fl(x) - x| <= u |x| + eta  with  eta = 2^-1075  (half the smallest subnormal; C11_rounding_model_with_underflow),
+   and no absolute term when |x| >= 2^-1022 (the normal range).  Flocq: Bdiv_correct, relative_error_N_FLT'_ex,
+   relative_error_N_FLT, and the bridge PrimFloat.div_equiv / of_int63_equiv.
+   Premises (executable): the computed mean is finite (then the count is >= 1, the sum and every valid element were
+   finite, nothing overflowed) and the count is below 2^53.                                                            *)
+From Tevec Require Import Proofs.RoundMean.
+
+(* (R5) the error model of one correctly rounded binary64 operation, gradual underflow included *)
+Theorem C11_rounding_model_with_underflow : forall x : R, (Rabs (rnd64 x - x) <= u64 * Rabs x + eta64)%R.
+Proof. exact rnd64_err. Qed.
+Theorem C11_rounding_model_normal_range : forall x : R,
+  (pow2 (-1022) <= Rabs x)%R -> (Rabs (rnd64 x - x) <= u64 * Rabs x)%R.
+Proof. exact rnd64_err_normal. Qed.
+Theorem C11_eta64_value : eta64 = (/ IZR (2 ^ 1075))%R.
+Proof. exact eta64_value. Qed.
+
+(* (R6) |vmean_float xs - mean of the valid elements| <= ((1+u)^(n+1) - 1) * (sum |valid|) / n + eta *)
+Theorem C11_vmean_binary64_error : forall xs : list PrimFloat.float,
+  ffin (vmean (NA := NumF64) (DT := IsNoneF64) (NF := NumF64) (fun x => x) xs) = true ->
+  (Z.of_nat (length (fvals xs)) < 2 ^ 53)%Z ->
+  (Rabs (f2r (vmean (NA := NumF64) (DT := IsNoneF64) (NF := NumF64) (fun x => x) xs) - meanR (rvals64 xs))
+   <= gam u64 (S (length (rvals64 xs))) * (sumabs (rvals64 xs) / INR (length (rvals64 xs))) + eta64)%R.
+Proof. exact vmean_binary64_error. Qed.
+
+(* the same with the explicit constant (n+1) u (1+u)^(n+1) *)
+Theorem C11_vmean_binary64_error_linear : forall xs : list PrimFloat.float,
+  ffin (vmean (NA := NumF64) (DT := IsNoneF64) (NF := NumF64) (fun x => x) xs) = true ->
+  (Z.of_nat (length (fvals xs)) < 2 ^ 53)%Z ->
+  (Rabs (f2r (vmean (NA := NumF64) (DT := IsNoneF64) (NF := NumF64) (fun x => x) xs) - meanR (rvals64 xs))
+   <= INR (S (length (rvals64 xs))) * u64 * (1 + u64) ^ S (length (rvals64 xs))
+      * (sumabs (rvals64 xs) / INR (length (rvals64 xs))) + eta64)%R.
+Proof. exact vmean_binary64_error_linear. Qed.
+
+(* (R7) no absolute term when the computed quotient sum / n is in the normal range (|.| >= 2^-1022) *)
+Theorem C11_vmean_binary64_error_normal : forall xs : list PrimFloat.float,
+  ffin (vmean (NA := NumF64) (DT := IsNoneF64) (NF := NumF64) (fun x => x) xs) = true ->
+  (Z.of_nat (length (fvals xs)) < 2 ^ 53)%Z ->
+  (pow2 (-1022) <= Rabs (f2r (ffold zero (fvals xs)) / INR (length (fvals xs))))%R ->
+  (Rabs (f2r (vmean (NA := NumF64) (DT := IsNoneF64) (NF := NumF64) (fun x => x) xs) - meanR (rvals64 xs))
+   <= gam u64 (S (length (rvals64 xs))) * (sumabs (rvals64 xs) / INR (length (rvals64 xs))))%R.
+Proof. exact vmean_binary64_error_normal. Qed.
+
+(* (R8) against the exact model: the option-R model of the same series is non-null and within the bound *)
+Theorem C11_vmean_float_vs_exact_model : forall xs : list PrimFloat.float,
+  ffin (vmean (NA := NumF64) (DT := IsNoneF64) (NF := NumF64) (fun x => x) xs) = true ->
+  (Z.of_nat (length (fvals xs)) < 2 ^ 53)%Z ->
+  exists e : R, vmean (NA := NumXR) (DT := IsNoneXR) (NF := NumXR) (fun x => x) (map fx xs) = Some e /\
+    (Rabs (f2r (vmean (NA := NumF64) (DT := IsNoneF64) (NF := NumF64) (fun x => x) xs) - e)
+     <= gam u64 (S (length (rvals64 xs))) * (sumabs (rvals64 xs) / INR (length (rvals64 xs))) + eta64)%R.
+Proof. exact vmean_float_vs_exact_model. Qed.
+
+(* a finite mean certifies at least one valid element, all of them finite *)
+Theorem C11_vmean_finite_certifies : forall xs : list PrimFloat.float,
+  ffin (vmean (NA := NumF64) (DT := IsNoneF64) (NF := NumF64) (fun x => x) xs) = true ->
+  (Z.of_nat (length (fvals xs)) < 2 ^ 53)%Z ->
+  1 <= length (fvals xs) /\ Forall (fun y => ffin y = true) (fvals xs).
+Proof. intros xs Hf Hn. split; [apply vmean_finite_count, Hf|apply vmean_finite_inputs; assumption]. Qed.
+
+(* non-vacuity of (R6)/(R8): a mean that rounds (sum twice, quotient once), a NaN is skipped; the premises hold *)
+Example C11_ex_mean_premises :
+  ffin (vmean (NA := NumF64) (DT := IsNoneF64) (NF := NumF64) (fun x => x) [0.1; nan; 0.2; 0.3]%float) = true /\
+  (Z.of_nat (length (fvals [0.1; nan; 0.2; 0.3]%float)) < 2 ^ 53)%Z /\
+  PrimFloat.eqb (vmean (NA := NumF64) (DT := IsNoneF64) (NF := NumF64) (fun x => x) [0.1; nan; 0.2; 0.3]%float) 0.2%float = false.
+Proof. repeat split; vm_compute; reflexivity. Qed.
+(* the absolute term eta cannot be dropped: the mean of [2^-1074; 0] is 2^-1075 exactly, the quotient underflows to 0 —
+   an error of eta with a relative bound of about 3u * 2^-1075 *)
+Example C11_ex_mean_underflow :
+  vmean (NA := NumF64) (DT := IsNoneF64) (NF := NumF64) (fun x => x) [0x1p-1074; 0]%float = 0%float /\
+  ffin (vmean (NA := NumF64) (DT := IsNoneF64) (NF := NumF64) (fun x => x) [0x1p-1074; 0]%float) = true.
+Proof. split; vm_compute; reflexivity. Qed.
+(* the finiteness premise is needed: the sum overflows although the mean is representable *)
+Example C11_ex_mean_overflow_is_detected :
+  ffin (vmean (NA := NumF64) (DT := IsNoneF64) (NF := NumF64) (fun x => x) [0x1p1023; 0x1p1023]%float) = false.
+Proof. vm_compute. reflexivity. Qed.
+(* premise of (R7): an ordinary mean is in the normal range (executable test on the quotient's exponent) *)
+Example C11_ex_mean_normal_range :
+  match Prim2SF (vmean (NA := NumF64) (DT := IsNoneF64) (NF := NumF64) (fun x => x) [0.1; nan; 0.2; 0.3]%float) with
+  | S754_finite _ m ex => (-1074 <= ex)%Z /\ (4503599627370496 <= Z.pos m)%Z | _ => False end.
+Proof. vm_compute. split; discriminate. Qed.
+
 Print Assumptions C11_round_sum_fold.
 Print Assumptions C11_vsum_binary64_error.
 Print Assumptions C11_vsum_binary64_error_linear.
@@ -541,3 +624,11 @@ Print Assumptions C11_gam_linear.
 Print Assumptions C11_vsum_float_vs_exact_model.
 Print Assumptions C11_vsum_finite_certifies.
 Print Assumptions C11_vsum_exact_on_grid.
+Print Assumptions C11_rounding_model_with_underflow.
+Print Assumptions C11_rounding_model_normal_range.
+Print Assumptions C11_eta64_value.
+Print Assumptions C11_vmean_binary64_error.
+Print Assumptions C11_vmean_binary64_error_linear.
+Print Assumptions C11_vmean_binary64_error_normal.
+Print Assumptions C11_vmean_float_vs_exact_model.
+Print Assumptions C11_vmean_finite_certifies.
